@@ -14,6 +14,7 @@ import numpy as np
 from mc import core
 
 PROPERTY = 'C01'
+GUARD = ['numqi.manifold']  # argument-immutability oracle (mc.seams.ImmutabilityGuard)
 LEVEL = 'model_checking'
 RULE = ('state = (map, dim, rank, field, backend, precision, theta lattice point); transition = one call of the real trivialisation '
         '(batched, 2-d batched, per-sample, or through the nn.Module) checked with the membership predicates of its manifold and '
